@@ -426,22 +426,35 @@ def r6_r7_tables(ctx, hugr, file) -> None:
     if al is None:
         ctx.broken("anchor vanished: Hugr.add_link")
     env = Env(hugr.module, hugr, {"self": sym("self"), "src": sym("src"), "dst": sym("dst")}, {})
-    stores = {}
     for st in real_body(al):
-        if isinstance(st, ast.Assign) and len(st.targets) == 1:
-            tg = st.targets[0]
-            if isinstance(tg, ast.Name):
-                env.vars[tg.id] = _ev_plain(nf, st.value, env)
-            elif isinstance(tg, ast.Attribute):
-                stores[show(_ev_plain(nf, tg, env))] = _ev_plain(nf, st.value, env)
+        if isinstance(st, ast.Assign) and len(st.targets) == 1 and isinstance(st.targets[0], ast.Name):
+            env.vars[st.targets[0].id] = _ev_plain(nf, st.value, env)
+    # every way out of add_link leaves both counts at max(old, offset + 1) (path summaries: early exits and guarded stores count)
+    al_paths = [p for p in ctx.paths(f"{HQ}.add_link") if p.kind in ("fall", "return")]
+    if not al_paths:
+        ctx.broken("Hugr.add_link: no completing path")
     for who, fld in (("src", "_num_outs"), ("dst", "_num_inps")):
-        key = show(_ev_plain(nf, ast.parse(f"self[{who}.node].{fld}", mode="eval").body, env))
-        got = stores.get(key)
-        w1 = _ev_plain(nf, ast.parse(f"max(self[{who}.node].{fld}, {who}.offset + 1)", mode="eval").body, env)
-        w2 = _ev_plain(nf, ast.parse(f"max({who}.offset + 1, self[{who}.node].{fld})", mode="eval").body, env)
-        ctx.check(got in (w1, w2), "C04.R6", f"Hugr.add_link: {who} port count grows monotonically", file, al.lineno,
-                  f"after add_link the {who} node's port count must be max(old count, offset + 1): never below the highest offset in use plus one, never lowered", al,
-                  expected=show(w1), found=show(got) if got else "<no store>")
+        old, new = f"self[{who}.node].{fld}", f"{who}.offset + 1"
+        grows = [(f"{old} < {new}", True), (f"{new} <= {old}", False), (f"{old} <= {who}.offset", True), (f"{who}.offset < {old}", False)]
+        bad = None
+        for p in al_paths:
+            st = p.find_effect(f"{old} = E_v")
+            if st:
+                v = st[-1][2]["E_v"]
+                if v in (f"max({old}, {new})", f"max({new}, {old})"):
+                    continue
+                if v == new and any(p.has_test(t, k) is not None for t, k in grows):
+                    continue
+                bad = (p, f"stores {v}")
+            elif any(p.has_test(t, not k) is not None for t, k in grows):
+                continue
+            else:
+                bad = (p, "no store")
+            break
+        ctx.check(bad is None, "C04.R6", f"Hugr.add_link: {who} port count grows monotonically", file, al.lineno,
+                  f"after add_link the {who} node's port count must be max(old count, offset + 1) on every way out: never below the highest offset in use "
+                  "plus one, never lowered" + (f" [path {bad[0].describe()}: {bad[1]}]" if bad else ""), bad[0].node if bad and bad[0].node is not None else al,
+                  expected=f"{old} = max({old}, {new})", found=bad[1] if bad else "")
     ins = [c for c in calls_in(al) if call_name(c) in ("insert_left", "insert_right", "__setitem__")]
     ok = len(ins) == 1
     if ok:
